@@ -7,7 +7,9 @@ Driver for C20.  Abstract case (fields):
       (accessions names seq attrs extra filler)×n
 
   consumer  seq | conc          src  plain | gz | read (uniprot.Read on a gzip temp file, capacities 100/100)
-  damage    none | trunc:<n> | set:<p>:<code> | gztrunc:<permille> | gzflip:<permille>
+                                     | read2 (as read, but a second dump is opened before the first is consumed)
+  damage    none | trunc:<n> | set:<p>:<code> | hset:<p>:<byte> (byte-level, applied by the harness)
+            | gztrunc:<permille> | gzflip:<permille> | gztruncabs:<bytes kept> (on the gzip stream)
   lists (accessions, names) are written `<count>:<comma separated>`
 
 The request carries the damaged text `applyDamage dm (renderDoc doc).text`; gzip-level damage is applied by
@@ -22,8 +24,10 @@ def parseList (x : String) : List Str :=
   match x.splitOn ":" with
   | cnt :: rest =>
     let n := natOfStr cnt
-    if n = 0 then [] else ((":".intercalate rest).splitOn ",").map String.toList
-  | [] => []
+    let items := if n = 0 then [] else ((":".intercalate rest).splitOn ",").map String.toList
+    -- a list whose announced length is not the number of items is not a list of the protocol
+    if items.length == n && (n != 0 || (":".intercalate rest).isEmpty) then items else ["<malformed list>".toList, x.toList]
+  | [] => ["<malformed list>".toList]
 
 def showList (l : List Str) : String := toString l.length ++ ":" ++ ",".intercalate (l.map String.ofList)
 
@@ -40,6 +44,8 @@ def parseDamage (x : String) : Damage :=
   match x.splitOn ":" with
   | ["trunc", n] => .trunc (natOfStr n)
   | ["set", p, c] => .set (natOfStr p) (Char.ofNat (natOfStr c))
+  | ["hset", p, b] => .hset (natOfStr p) (natOfStr b)
+  | ["gztruncabs", n] => .gz "truncabs" (natOfStr n)
   | ["gztrunc", pm] => .gz "trunc" (natOfStr pm)
   | ["gzflip", pm] => .gz "flip" (natOfStr pm)
   | _ => .none
@@ -58,7 +64,7 @@ def parseCase (f : List String) : Option Case :=
   match f with
   | "doc" :: cons :: entCap :: errCap :: _deadline :: src :: damage :: seed :: _stall :: pyLen :: prolog :: tnl :: n :: rest =>
     (docEntries (natOfStr n) rest).map fun es =>
-      let rd := src == "read"
+      let rd := src == "read" || src == "read2"
       { seq := cons == "seq", entCap := if rd then 100 else natOfStr entCap, errCap := if rd then 100 else natOfStr errCap,
         src := src, dm := parseDamage damage, seed := natOfStr seed, pyLen := pyLen,
         doc := { prolog := natOfStr prolog, entries := es, trailingNl := tnl == "1" } }
@@ -68,7 +74,10 @@ def render (f : List String) : List String :=
   match f, parseCase f with
   | "doc" :: cons :: entCap :: errCap :: deadline :: src :: _ :: seed :: stall :: _, some c =>
     let text := applyDamage c.dm (renderDoc c.doc).text
-    let gzd := match c.dm with | .gz k pm => k ++ ":" ++ toString pm | _ => "none"
+    let gzd := match c.dm with
+      | .gz k pm => k ++ ":" ++ toString pm
+      | .hset p b => "pset:" ++ toString p ++ ":" ++ toString b
+      | _ => "none"
     ["c20.parse", cons, entCap, errCap, deadline, src, gzd, seed, stall, String.ofList text]
   | _, _ => ["bad-case"]
 
@@ -81,20 +90,26 @@ def takeEntries : Nat → List String → Option (List Entry × List String)
   | _ + 1, _ => none
 
 /-- the abstract trace from the harness's symbols (`o` other token, `s` start element other than entry,
-`E` entry, `X` entry with decode error; last symbol `.` EOF or `!` error) and the entries it decoded -/
-def traceOf : List Char → List Entry → List Ev → Trace
+`E` entry, `X` entry with decode error; last symbol `.` EOF or `!` error) and the entries it decoded;
+`none` when the symbols and the entry list do not fit together -/
+def traceOf : List Char → List Entry → List Ev → Option Trace
   | 'o' :: r, es, acc => traceOf r es (.other :: acc)
   | 's' :: r, es, acc => traceOf r es (.start :: acc)
   | 'E' :: r, e :: es, acc => traceOf r es (.entry e :: acc)
   | 'X' :: r, e :: es, acc => traceOf r es (.entryErr e :: acc)
-  | '!' :: _, _, acc => ⟨acc.reverse, .err⟩
-  | _, _, acc => ⟨acc.reverse, .eof⟩
+  | ['!'], [], acc => some ⟨acc.reverse, .err⟩
+  | ['.'], [], acc => some ⟨acc.reverse, .eof⟩
+  | _, _, _ => none
 
 def capClass (c : Case) : String :=
   (if c.entCap = 0 then "e0" else if c.entCap < c.doc.entries.length then "e<k" else "e>=k") ++
   (if c.errCap = 0 then "r0" else if c.errCap < 2 then "r1" else "r>=2")
 
+def short (x : String) : String := String.ofList (x.toList.take 600)
+
 def badCase : Verdict := { corr := false, judge := none, cls := "bad-case", detail := "bad case" }
+
+def isGzDamage (dm : Damage) : Bool := match dm with | .gz _ _ => true | _ => false
 
 def judge (f out : List String) : Verdict :=
   match parseCase f with
@@ -106,65 +121,78 @@ def judge (f out : List String) : Verdict :=
                 (if c.seq then "seq" else "conc") ++ "/" ++ capClass c
     let lenOk := c.pyLen.isEmpty || natOfStr c.pyLen == r.text.length
     match out with
-    | ["ok", "openerr", gzOpen] =>
-      -- uniprot.Read returned an error instead of channels (gzip header unreadable)
-      let cl := match c.dm with | .gz _ _ => true | _ => false
-      { corr := gzOpen == "1" && lenOk, judge := some cl, cls := base ++ "/openerr",
-        detail := if cl then "" else "Read failed on an undamaged file" }
+    | ["ok", "openerr", gzOpen, leaked] =>
+      -- The gzip header is unreadable.  src read: uniprot.Read returned its error synchronously; RULING: that
+      -- error is the report, the returned channels are not to be consumed (they stay open), and no parser
+      -- goroutine may have been started.  src gz: the harness had no reader to hand to Parse — nothing ran.
+      if c.src == "read" || c.src == "read2" then
+        let j := isGzDamage c.dm && leaked == "0"
+        { corr := gzOpen == "1" && lenOk, judge := some j, cls := base ++ "/openerr",
+          detail := if j then "" else "Read returned an error on an undamaged file, or left a goroutine behind" }
+      else { corr := gzOpen == "1" && lenOk, judge := none, cls := base ++ "/openerr-nothing-run", detail := "" }
     | "ok" :: closed :: nErr :: nDel :: rest =>
       match takeEntries (natOfStr nDel) rest with
       | some (del, syms :: nTr :: rest2) =>
         match takeEntries (natOfStr nTr) rest2 with
         | some (trEntries, [gzErr, plainLen, isPrefix, sticky]) =>
-          let t := traceOf syms.toList trEntries []
+          match traceOf syms.toList trEntries [] with
+          | none => { badCase with cls := base ++ "/bad-reply", judge := some false, detail := "unreadable trace " ++ syms }
+          | some t =>
           let fin := run c.seq (c.seed % 2 == 0) c.entCap c.errCap t
           let mClosed := bothClosed fin
           let mErr := (Chan.recvd 1 fin.hist).length
           let mDel := deliveredOf fin
-          let corr := (closed == "1") == mClosed && natOfStr nErr == mErr && del == mDel && lenOk
           -- the class of the case: from the construction, or (gzip damage) from the harness's gzip reader
           let cl : DClass := match c.dm with
             | .gz _ _ =>
               if gzErr == "1" then (if isPrefix == "1" then .damagedAt (natOfStr plainLen) else .damagedAt 0)
               else if natOfStr plainLen == r.text.length && isPrefix == "1" then classify c.doc r .none else .unknown
             | dm => classify c.doc r dm
-          let corner := c.seq && c.errCap < 2
+          -- decoder assumption, checked: an undamaged valid document is tokenised as the spec says
+          let traceOk := match cl, c.dm with
+            | .wellformed, .none => t == docTrace c.doc
+            | _, _ => true
+          let corr := (closed == "1") == mClosed && natOfStr nErr == mErr && del == mDel && lenOk && traceOk
           let isClosed := closed == "1"
           let n := natOfStr nErr
           let tag := (if sticky == "1" then "" else "/nonsticky") ++ (if mErr ≥ 2 then "/2err" else "")
           let detailOf (why : String) : String :=
             why ++ "; model: closed=" ++ boolStr mClosed ++ " errors=" ++ toString mErr ++ " delivered=" ++
-              toString mDel.length ++ " trace=" ++ syms ++ (if lenOk then "" else "; generator length mismatch")
+              toString mDel.length ++ " trace=" ++ syms ++ (if lenOk then "" else "; generator length mismatch") ++
+              (if traceOk then "" else "; the decoder's trace is not docTrace of the document")
           match cl with
           | .wellformed =>
+            -- content clause: the delivered entries are the DOCUMENT's entries (Spec/UniprotDoc), in order
             let j := isClosed && n == 0 && del == all
             { corr, judge := some j, cls := base ++ "/wellformed",
-              detail := if corr && j then "" else detailOf "well-formed: want all entries, no error, both closed" }
+              detail := if corr && j then "" else detailOf "well-formed: want all entries of the document, no error, both closed" }
           | .damagedAt p =>
             let before := entriesBefore c.doc r p
             let j := isClosed && n ≥ 1 && del.take before.length == before
-            { corr, judge := if corner then none else some j,
-              cls := base ++ (if corner then "/corner" else "/damaged") ++
+            { corr, judge := some j,
+              cls := base ++ "/damaged" ++ (if c.doc.valid then "" else "-schema") ++
                      (if del.length > before.length then "+partial" else "") ++ tag,
-              detail := if corr && (j || corner) then "" else
+              detail := if corr && j then "" else
                 detailOf ("damaged at " ++ toString p ++ ": want the " ++ toString before.length ++
                           " entries before it, >= 1 error, both closed") }
           | .beforeRoot p =>
             let j := isClosed && n ≥ 1
-            { corr, judge := if corner then none else some j,
-              cls := base ++ (if corner then "/corner" else "/damaged-beforeroot") ++ tag,
-              detail := if corr && (j || corner) then "" else
+            { corr, judge := some j, cls := base ++ "/damaged-beforeroot" ++ tag,
+              detail := if corr && j then "" else
                 detailOf ("truncated at " ++ toString p ++ " before the root element: want >= 1 error, both closed") }
           | .unknown =>
             { corr, judge := none, cls := base ++ "/unclassified" ++ tag,
               detail := if corr then "" else detailOf "not judged" }
         | _ => { badCase with cls := base ++ "/bad-reply", judge := some false, detail := "unreadable reply" }
       | _ => { badCase with cls := base ++ "/bad-reply", judge := some false, detail := "unreadable reply" }
-    | _ =>
-      -- err / panic / timeout / crash of the harness op itself: the property demands termination
-      let inDom := match classify c.doc r c.dm with | .unknown => false | _ => true
-      { corr := false, judge := if inDom then some false else none, cls := base ++ "/no-reply",
-        detail := "harness: " ++ lineOf out }
+    | status :: _ =>
+      -- race (the race detector stopped the process) / crash / panic / timeout / err of the harness op: the
+      -- property demands termination for every stream, and a data race is a failure whatever the input
+      let inDom := status == "race" || status == "crash" || isGzDamage c.dm ||
+        (match classify c.doc r c.dm with | .unknown => false | _ => true)
+      { corr := false, judge := if inDom then some false else none, cls := base ++ "/no-reply-" ++ status,
+        detail := "harness: " ++ short (lineOf out) }
+    | [] => badCase
 
 def driver : PropDriver := { render, judge }
 end PolyVerif.Driver.C20
